@@ -305,7 +305,7 @@ def main(argv):
     # spec self-tests: each seeded deviation must make TLC report GetIsPathProduct
     selftests = {}
     for flag in ("ghost", "forget", "keep"):
-        rr = tlc.run(d, "SceneGraph", cfg(depth=6, invs="INVARIANT GetIsPathProduct", **{flag: True}), timeout=600)
+        rr = tlc.run(d, "SceneGraph", cfg(depth=8, invs="INVARIANT GetIsPathProduct", **{flag: True}), timeout=600)
         selftests[flag] = rr.violated
         if rr.violated != "GetIsPathProduct":
             raise MachineryError(f"spec self-test {flag}: expected GetIsPathProduct violation, got {rr.violated} {rr.error}")
